@@ -345,6 +345,9 @@ def run(ctx):
                     viol("rdf|bins", "compute_rdf(r_range=%s, bin_width=%s, n_bins=%s) returns %d bin centres, expected %d" % (r_range, bw, nb, len(r), nbins), dict(rpm, rdf=str(kwr)))
                 elif not near[0] and np.abs(g - wantg).max() > 1e-6 * max(1.0, np.abs(wantg).max()):
                     viol("rdf|value", "compute_rdf differs from histogram / (n_pairs * sum(1/V) * shell volume) by %.3g" % np.abs(g - wantg).max(), dict(rpm, rdf=str(kwr)))
+                if nbins <= 40 and len(d) <= 400:
+                    reqs.append("rdf %s %s %d %d %s %s" % (rat(lo), rat(hi), nbins, len(prs), rat(float(np.sum(1.0 / vol))), " ".join(rat(x) for x in d)))
+                    meta.append(("rdf", k, None, (np.asarray(g, dtype=np.float64), np.asarray(r, dtype=np.float64)), None))
             except Exception as e:
                 viol("rdf|raises", "compute_rdf raised %s: %s" % (type(e).__name__, e), dict(rpm, rdf=str(kwr)))
 
@@ -453,6 +456,21 @@ def run(ctx):
             continue
         if m == "bad-op":
             ctx.broke("driver:" + what, "bad-op for case %d" % k)
+            continue
+        if what == "rdf":
+            g_impl, r_impl = got
+            ctx.count("rdf compared with the model")
+            try:
+                hm = m.split(" G ")[0].split()[1]
+                gm = np.array([float(Fraction(x)) for x in m.split(" G ")[1].split(" C ")[0].split()]) / np.pi
+                cm = np.array([float(Fraction(x)) for x in m.split(" C ")[1].split(" M ")[0].split()])
+                marg = float(Fraction(m.split(" M ")[1]))
+            except Exception:
+                ctx.broke("driver:rdf", m[:120]); continue
+            if np.abs(cm - r_impl).max() > 1e-9:
+                ctx.broke("correspondence:rdf-centres", "case %d: bin centres %s, model %s" % (k, r_impl[:4], cm[:4]))
+            elif marg > 2e-6 and np.abs(gm - g_impl).max() > 1e-6 * max(1.0, np.abs(gm).max()):
+                ctx.broke("correspondence:rdf", "case %d: g(r) %s, model %s (histogram %s)" % (k, g_impl[:6], gm[:6], hm))
             continue
         if what == "contacts":
             ctx.count("contacts compared with the model")
